@@ -503,3 +503,22 @@ impl<'de, 'a> DeserializeSeed<'de> for Seed<'a> {
 pub fn from_str_rt(text: &str, ty: &Ty, opts: serde_saphyr::Options) -> Result<Val, serde_saphyr::Error> {
     serde_saphyr::with_deserializer_from_str_with_options(text, opts, |d| Seed(ty).deserialize(d))
 }
+
+// ---- a `DeserializeOwned` front for entry points that want a type, not a seed ----
+thread_local! {
+    static CUR_TY: std::cell::RefCell<Option<Ty>> = const { std::cell::RefCell::new(None) };
+}
+/// Deserializes as the run-time type installed with [`with_ty`].
+pub struct Dyn(pub Val);
+impl<'de> de::Deserialize<'de> for Dyn {
+    fn deserialize<D: Deserializer<'de>>(d: D) -> Result<Self, D::Error> {
+        let ty = CUR_TY.with(|c| c.borrow().clone()).expect("with_ty not active");
+        Seed(&ty).deserialize(d).map(Dyn)
+    }
+}
+pub fn with_ty<T>(ty: &Ty, f: impl FnOnce() -> T) -> T {
+    CUR_TY.with(|c| *c.borrow_mut() = Some(ty.clone()));
+    let r = f();
+    CUR_TY.with(|c| *c.borrow_mut() = None);
+    r
+}
